@@ -29,6 +29,12 @@ For a connected complete 2D D-set `g` (tables: `op i d`, chambers 1..size):
     all         the union of the three (disjoint by the sign of K);
   `boxPremise` is the decidable hypothesis under which `Props/C07.lean : box_suffices` proves
   that the box contains every euclidean and every minimally hyperbolic assignment whatsoever;
+  the box is not materialised: `candidates` walks it orbit by orbit and stops below a prefix
+  whose curvature with all later orbits at their minimum is already negative (K is antitone in
+  every v, so below such a prefix only that one vector can be minimally hyperbolic and nothing
+  can have K ≥ 0) — `Props/C07.lean : candidates_complete` proves that every member of the box
+  with K ≥ 0 or minimally hyperbolic is a candidate, and `premise_of_candidates` that the
+  premise evaluated on the candidates is the premise on the whole box;
 * automorphisms of the D-set: every map obtained by sending chamber 1 to a chamber e and
   extending along the operations, kept if it is a bijection commuting with all operations;
   two assignments are the same modulo automorphisms if one is the other composed with an
@@ -134,6 +140,27 @@ def boxPremise (n : Nat) (orbs : List Orbit) (vmins : List Nat) (top : Nat) : Bo
     let k := curvature n orbs a
     k.isNeg || !(Fr.sub k (Fr.sum (topTerms orbs a top))).isNeg
 
+/-- orbit-by-orbit walk through the box: `a` carries the values chosen for the orbits before `k`
+    and the minima from `k` on; `fuel` = number of orbits still to choose.  A prefix whose vector
+    already has K < 0 is not extended (it is itself the only candidate below it). -/
+def candidates (n : Nat) (orbs : List Orbit) (vmins : List Nat) (top : Nat) :
+    Nat → Nat → List Nat → List (List Nat)
+  | 0, _, a => [a]
+  | fuel + 1, k, a =>
+    (List.range' (vmins.getD k 0) (top + 1 - vmins.getD k 0)).flatMap fun v =>
+      if (curvature n orbs (a.set k v)).isNeg then [a.set k v]
+      else candidates n orbs vmins top fuel (k + 1) (a.set k v)
+
+def candidatesOf (n : Nat) (orbs : List Orbit) (vmins : List Nat) (top : Nat) : List (List Nat) :=
+  candidates n orbs vmins top vmins.length 0 vmins
+
+/-- `boxPremise` evaluated on the candidates only (members of the box with K < 0 satisfy it
+    trivially, all others are candidates) -/
+def candPremise (n : Nat) (orbs : List Orbit) (vmins : List Nat) (top : Nat) : Bool :=
+  (candidatesOf n orbs vmins top).all fun a =>
+    let k := curvature n orbs a
+    k.isNeg || !(Fr.sub k (Fr.sum (topTerms orbs a top))).isNeg
+
 /-! ### branching tables, orbifold symbols -/
 
 /-- the table v(i, d), index `i * size + (d - 1)`, of an assignment -/
@@ -197,6 +224,23 @@ def equivalent (g : Sym) (auts : List (Array Nat)) (va vb : Array Nat) : Bool :=
     [0, 1].all fun i => g.chambers.all fun d =>
       vb.getD (i * g.size + (d - 1)) 0 == va.getD (i * g.size + (f.getD d 0 - 1)) 0
 
+/-- lexicographic `<` on vectors of equal length -/
+def lexLt : List Nat → List Nat → Bool
+  | [], [] => false
+  | [], _ :: _ => true
+  | _ :: _, [] => false
+  | a :: as, b :: bs => a < b || (a == b && lexLt as bs)
+
+/-- `va ∘ γ` as a vector (both index pairs, chambers in order) -/
+def composed (g : Sym) (va : Array Nat) (f : Array Nat) : List Nat :=
+  [0, 1].flatMap fun i => g.chambers.map fun d => va.getD (i * g.size + (f.getD d 0 - 1)) 0
+
+/-- class invariant: the lexicographically largest `va ∘ γ`, γ running through all automorphisms
+    (a group: every bijection commuting with the operations is in `automorphisms g`, and
+    composites of such are such).  `equivalent g auts va vb` iff the invariants agree. -/
+def classKey (g : Sym) (auts : List (Array Nat)) (va : Array Nat) : List Nat :=
+  auts.foldl (fun best f => let w := composed g va f; if lexLt best w then w else best) []
+
 /-! ### the expected sets -/
 
 /-- 0 spherical, 1 euclidean, 2 hyperbolic, 3 all -/
@@ -207,7 +251,7 @@ structure Oracle where
   orbs : List Orbit
   vmins : List Nat
   auts : List (Array Nat)
-  /-- box members with K = 0 -/
+  /-- box members (all found among the candidates) with K = 0 -/
   euclidean : List (List Nat)
   /-- box members that are minimally hyperbolic -/
   hyperbolic : List (List Nat)
@@ -218,7 +262,7 @@ def mkOracle (g : Sym) : Oracle :=
   let orbs := orbits g
   let vmins := orbs.map fun o => vminOf o.r
   let n := g.size
-  let bx := (boxOf vmins boxTop).map fun a => (a, curvature n orbs a)
+  let bx := (candidatesOf n orbs vmins boxTop).map fun a => (a, curvature n orbs a)
   { g := g, orbs := orbs, vmins := vmins, auts := automorphisms g,
     euclidean := (bx.filter fun p => p.2.isZero).map (·.1),
     hyperbolic := (bx.filter fun p => p.2.isNeg && minimallyHyperbolic n orbs vmins p.1).map (·.1),
@@ -283,7 +327,7 @@ def clauses (g : Sym) (geom : GeomIdx) (out : List Emitted) : List (String × Bo
   let tabs := asg.map (vTab g o.orbs)
   [ ("oracle-orbits-are-well-defined", orbitsOk o.orbs),
     ("good-list-entries-are-orbifold-symbols", goodListParses),
-    ("oracle-box-premise-holds", boxPremise n o.orbs o.vmins boxTop),
+    ("oracle-box-premise-holds", candPremise n o.orbs o.vmins boxTop),
     ("oracle-orbifold-symbols-are-defined", o.positive.all fun p => p.2.isSome),
     ("emitted-symbol-is-on-exactly-the-input-dset",
       syms.all fun s => s.size == g.size && s.dim == g.dim && s.op == g.op),
@@ -305,8 +349,9 @@ def clauses (g : Sym) (geom : GeomIdx) (out : List Emitted) : List (String × Bo
       out.map (·.counter) == (List.range out.length).map (· + 1)),
     ("every-emitted-symbol-is-in-the-expected-set", asg.all fun a => o.admits geom a),
     ("every-expected-class-is-emitted-exactly-once",
+      let emittedKeys := tabs.map (classKey g o.auts)
       (o.expected geom).all fun a =>
-        let va := vTab g o.orbs a
-        SpecC08.countBy (fun vb => equivalent g o.auts va vb) tabs == 1) ]
+        let key := classKey g o.auts (vTab g o.orbs a)
+        SpecC08.countBy (fun k => k == key) emittedKeys == 1) ]
 
 end DSymVerif.SpecC07
